@@ -13,10 +13,10 @@ for f in files:
     cur = None
     for line in open(f):
         line = line.rstrip("\n")
-        m = re.match(r"=== (C\d+b?)(?: mutant |/)(\d+)(?: vs (C\d+))?", line)
+        m = re.match(r"=== (C\d+[bc]?)(?: mutant |/)(\d+)(?: vs (C\d+))?", line)
         if m:
             cur = (f"{m.group(1)}-{m.group(2)}", m.group(3) or m.group(1)); continue
-        m2 = re.match(r"(C\d+b?-\d+) vs (C\d+): (.*)", line)
+        m2 = re.match(r"(C\d+[bc]?-\d+) vs (C\d+): (.*)", line)
         if m2:
             add(m2.group(1), m2.group(2), m2.group(3)); continue
         if cur is None: continue
